@@ -26,12 +26,10 @@ if __name__ == "__main__":
     sys.path.insert(0, os.path.join(os.path.dirname(os.path.abspath(__file__)), "..", "lib"))
 import vf
 
-# What is decided on the unchanged tree.  C30 does NOT hold on the unchanged tree (the SELFDESTRUCT
-# notification is inferred from the last journal entry, see `C30_DEFECT` below: spurious after a failed
-# SELFDESTRUCT, missing / misattributed in the EIP-6780 self-target case), so the check for C30 is not
-# registered until /repo is fixed or the finding is recorded in known_findings.json -- then set
-# DECIDED["C30"] = True and run bin/mkmanifest.  VERIF_INSPECTOR_ALL=1 registers it anyway (used to
-# demonstrate the finding, and by the bin/mutant runs that show the proposed repair makes the check pass).
+# What is registered.  C30 did not hold before /repo commit da0cc227 ("derive the inspector's selfdestruct
+# notification from the executed instruction"): the notification was inferred from the last journal entry
+# (`C30_DEFECT`).  With that repair all four checks pass.  VERIF_INSPECTOR_ALL=1 registers every property
+# regardless of DECIDED.
 DECIDED = {"C29": True, "C30": True, "C25": True, "C28": True}
 
 _TECH = ("TLA+ protocol specification InspectorProtocol.tla (pushdown acceptor for the sequence of inspector "
@@ -45,7 +43,7 @@ _TEXTS = {
         level="Per run (quick: 1.3k programs / ~68k notifications; thorough: 20k programs / ~690k notifications): enumerated corner programs "
               "(calls refused before a frame exists: depth limit reached by a 1025-deep recursion, insufficient balance, "
               "precompile, absent / code-less target, CREATE with value above balance, nonce overflow, CREATE2 collision, "
-              "failing init code; calls and creates answered by the inspector itself; LOG0-4 succeeding and failing) over "
+              "failing init code; calls and creates answered by the inspector itself -- selected by callee / init code or by depth, also NESTED 1..4 frames deep inside create transactions, CREATE/CREATE2 frames and CALL frames in all mixes; LOG0-4 succeeding and failing) over "
               "several hardforks, plus seeded random call graphs over 3 contracts, biased opcode streams and uniform random "
               "bytecode. For every notification TLC checks: *_end pops the innermost open frame with the same kind and the "
               "same inputs (caller, target, code address, scheme, value, gas limit, input digest, static flag / caller, "
